@@ -1,5 +1,6 @@
 import ALock.Props.C01
 import ALock.Lemmas.Fifo
+import ALock.Lemmas.Accept
 
 /-!
 # C13 — Mutex eventual fairness: a starved waiter closes the fast path
@@ -111,3 +112,17 @@ example :
     (step (run {} (ops0 ++ ops1)) (.poll 0 0 false)).2 = .ready := by decide
 
 end ALock.Mutex
+
+namespace ALock.Accept.Mutex
+open ALock.Atomic.Mutex
+
+/-- **C13, first clause (executions of the real crate under preemption).** In every accepted
+execution, while some agent is starved the state word is at least 2 — so `compare_exchange(0, 1)`,
+the only operation of `try_lock`, `try_lock_arc` and the first poll of `lock` / `lock_arc`, fails
+(and the acceptor accepts it only as failed). -/
+theorem C13_accepted (n : Nat) (tr : List TEv) (st' : St) (h : acceptAll (init n) tr = .ok st')
+    (hs : 1 ≤ starvedN st'.sys) : 2 ≤ st'.sys.st := by
+  have := (C01_accepted n tr st' h).2
+  omega
+
+end ALock.Accept.Mutex
